@@ -1,5 +1,5 @@
 use crate::line::{LineV, blank_line, blank_cells, cleared, inserted, deleted};
-use crate::buffer::{min_int, max_int, unwrapped, erase_extent, erase_unwraps, erase_touches_row, lemma_erased_rows_unchanged, ScrollbackLimit, ends_before, run_before, at_logical};
+use crate::buffer::{min_int, max_int, unwrapped, erase_extent, erase_unwraps, erase_touches_row, lemma_erased_rows_unchanged, ScrollbackLimit, ends_before, run_before, at_logical, same_logical_upto, lline, trimmed};
 use crate::tabs::{tabs_sorted, default_tabs, mult8_in, tabs_below, tabs_upto, lemma_tabs_below_bounds, lemma_tabs_below_prefix, lemma_mult8_in};
 use crate::charset::translate_spec;
 use crate::pen::{sgr_upto, apply_sgr};
